@@ -209,7 +209,14 @@ func runC15(c *Ctx) []Violation {
 		c.T.End()
 		recs := append([]world.LRec{}, w.LRecs...)
 		nr := world.LRec{Vals: append([]string{}, recs[k].Vals...), Items: recs[k].Items}
-		if fi == w.Shape.IntIdx {
+		retyped := false
+		if (w.Format == "json" || w.Format == "jsonlog") && world.IsDigits(nr.Vals[w.Shape.IntIdx]) && c.T.Chance("c15.flip.type-only", 1, 3) {
+			// the same digits stored as the other JSON type (7 <-> "7"): a different ingested value,
+			// with the same text
+			fi, retyped = w.Shape.IntIdx, true
+			nr.OtherType = !recs[k].OtherType
+			c.Count("fault.stored-value-retyped", 1)
+		} else if fi == w.Shape.IntIdx {
 			nr.Vals[fi] = nr.Vals[fi] + "7"
 		} else {
 			nr.Vals[fi] = "Q" + nr.Vals[fi]
@@ -247,7 +254,7 @@ func runC15(c *Ctx) []Violation {
 				if i == pos && a.Checksum == b.Checksum {
 					v := viol("C15.checksum-sensitive", w.Format+": replacing an ingested value does not change the record's checksum",
 						det(fmt.Sprintf("record #%d field %d: raw %s -> %s, checksum %s both times", i+1, fi, clipS(a.RawJSON, 200), clipS(b.RawJSON, 200), a.Checksum),
-							"record before: "+clipS(w.Render(w.LRecs[k]), 300), "record after:  "+clipS(w.Render(nr), 300),
+							"record before: "+clipS(w.Render(w.LRecs[k]), 300), "record after:  "+clipS(w.Render(nr), 300), fmt.Sprintf("only the JSON type of the value changed: %v", retyped),
 							"output before: "+clipS(a.Out, 300), "output after:  "+clipS(b.Out, 300))...)
 					// known finding: the checksum is computed from idr.JSONify2 of the record, which leaves out
 					// the attributes of an element that has text and no child elements
